@@ -104,6 +104,11 @@ def make_search(case, session=None):
         return af.Drawer(name="fit", total_draws=4, session=session)
     if case["search"] == "lbfgs":
         return af.LBFGS(name="fit", iterations_per_update=1, maxiter=int(case["updates"]), session=session)
+    if case["search"] == "dynesty":
+        return af.DynestyStatic(name="fit", nlive=20, iterations_per_update=150, number_of_cores=1, force_x1_cpu=True,
+                                session=session)
+    if case["search"] == "pyswarms":
+        return af.PySwarmsGlobal(name="fit", n_particles=6, iters=6, iterations_per_update=3, number_of_cores=1, session=session)
     raise ValueError(case["search"])
 
 
@@ -159,6 +164,7 @@ class Hook:
         self.ck = None    # index of the mutation event at which the process dies
         self.occ = 0
         self.ll_calls = 0
+        self.main_pid = os.getpid()
 
     def rel(self, p):
         return p[len(self.root):]
@@ -169,6 +175,13 @@ class Hook:
         rep.update(self.extra)
         with open(self.report_path, "w") as f:
             json.dump(rep, f)
+        if os.getpid() != self.main_pid:
+            # the likelihood runs in a worker forked by the library (SneakyPool): the whole fit dies, not just the worker
+            import signal
+            try:
+                os.kill(self.main_pid, signal.SIGKILL)
+            except OSError:
+                pass
         os._exit(99)
 
     def event(self, kind, path, src=None):
@@ -234,8 +247,13 @@ class Hook:
                         if f.testzip() is not None:
                             why = "corrupt archive"
                 elif src.endswith(".dill.tmp"):
-                    with open(src, "rb") as f:
-                        dill.load(f)
+                    try:
+                        with open(src, "rb") as f:
+                            dill.load(f)
+                    except (EOFError, dill.UnpicklingError):
+                        why = "truncated pickle"
+                    except BaseException:      # complete but not loadable (a defect of what was pickled, not of the protocol)
+                        pass
                 elif src.endswith(".json.tmp"):
                     with open(src) as f:
                         json.load(f)
@@ -305,6 +323,17 @@ class Hook:
         return os.path.abspath(p)
 
 
+def hexify(x):
+    """Floats of a nested structure as hex strings (exact comparison across runs)."""
+    if isinstance(x, (float, np.floating)):
+        return hexf(x)
+    if isinstance(x, (list, tuple, np.ndarray)):
+        return [hexify(v) for v in x]
+    if isinstance(x, dict):
+        return {str(k): hexify(v) for k, v in x.items()}
+    return x if isinstance(x, (int, str, bool, type(None))) else repr(x)
+
+
 def result_info(result):
     out = {"summary_ll": None, "samples_ll": None, "internal": None, "instance": None}
     ss = result.samples_summary
@@ -315,10 +344,20 @@ def result_info(result):
             out["median"] = [hexf(x) for x in ss.median_pdf_sample.parameter_lists_for_model(ss.model)]
         except Exception as e:  # noqa
             out["median"] = "exc:" + type(e).__name__
+        stats = {}
+        for name in ("values_at_sigma_1", "values_at_sigma_3", "errors_at_sigma_1", "errors_at_sigma_3", "log_evidence"):
+            try:
+                stats[name] = hexify(getattr(ss, name))
+            except Exception as e:  # noqa
+                stats[name] = "exc:" + type(e).__name__
+        stats["max_ll_log_prior"] = hexify(ss.max_log_likelihood_sample.log_prior)
+        stats["max_ll_weight"] = hexify(ss.max_log_likelihood_sample.weight)
+        out["stats"] = stats
     if result.samples is not None:
         out["samples_ll"] = [hexf(s.log_likelihood) for s in result.samples.sample_list]
         out["samples_par"] = [[hexf(v) for v in s.parameter_lists_for_model(result.samples.model)]
                               for s in result.samples.sample_list]
+        out["samples_w"] = [[hexf(s.weight), hexf(s.log_prior)] for s in result.samples.sample_list]
     out["internal_in_memory"] = getattr(result, "_search_internal", None) is not None
     return out
 
@@ -385,13 +424,20 @@ def file_tag(role, path):
             json.load(open(path))
             return True, None
         if role in ("Dill", "DillTmp"):
-            with open(path, "rb") as f:
-                obj = dill.load(f)
+            try:
+                with open(path, "rb") as f:
+                    obj = dill.load(f)
+            except (EOFError, dill.UnpicklingError):
+                return False, None
+            except BaseException:
+                return None, None      # complete file whose content can not be unpickled: not a truncation
             if obj is None:
                 return True, "none"
             if isinstance(obj, dict) and "log_posterior_list" in obj and not hasattr(obj, "x"):
                 return True, tag_of_ll(max(obj["log_posterior_list"]))
-            return True, tag_of_ll(float(np.max(obj.log_posterior_list)))
+            if hasattr(obj, "log_posterior_list"):
+                return True, tag_of_ll(float(np.max(obj.log_posterior_list)))
+            return True, None      # some other sampler state (dynesty): readable is all we can say
         if role == "SamplesCsv":
             import csv
             rows = list(csv.DictReader(open(path), skipinitialspace=True))
